@@ -3,6 +3,7 @@
 package omniwitness
 
 import (
+	"crypto/sha256"
 	"google.golang.org/grpc/codes"
 	"google.golang.org/grpc/status"
 	"bytes"
@@ -79,6 +80,10 @@ type FeedCase struct {
 	// matching context.DeadlineExceeded, as an http.Client with its own timeout reports,
 	// while the feeder's context is alive) | canceled (wraps context.Canceled) | unavailable (gRPC status)
 	ErrKind string `json:"err_kind,omitempty"`
+	// WBig / NBig > 0 (stub only) override W[0] / N with sizes beyond any real tree (2^62,
+	// 2^63 +- 1, 2^64-1): the roots are then made up, which the recording stub does not mind
+	WBig uint64 `json:"w_big,omitempty"`
+	NBig uint64 `json:"n_big,omitempty"`
 	Storage string `json:"storage"`  // real witness storage
 	WStale  bool   `json:"w_stale"`  // (stub) witness's reported checkpoint is on the other branch than the log's
 	Shape   string `json:"shape,omitempty"` // published checkpoint: "" plain | ext (extension lines) | lz (leading zeros in the size) | extrasig (an unknown extra signature line)
@@ -141,14 +146,33 @@ func cpBytes(key *vlib.Key, br *vlib.Branch, size int) []byte {
 	return vlib.Note(text, key.SigLine(text))
 }
 
+// rootOf is the branch's root, or a made-up one for sizes no real tree reaches.
+func rootOf(br *vlib.Branch, size uint64) [32]byte {
+	if size <= 1<<16 {
+		return br.Root(size)
+	}
+	return sha256.Sum256([]byte(fmt.Sprintf("made-up root of size %d", size)))
+}
+
+func (c *FeedCase) nsize() uint64 {
+	if c.NBig > 0 {
+		return c.NBig
+	}
+	return uint64(c.N)
+}
+
 // shapedCp is a valid log-signed checkpoint in one of the shapes a log may legally publish.
 func shapedCp(key *vlib.Key, br *vlib.Branch, size int, shape string) []byte {
-	root := br.Root(uint64(size))
+	return shapedCpU(key, br, uint64(size), shape)
+}
+
+func shapedCpU(key *vlib.Key, br *vlib.Branch, size uint64, shape string) []byte {
+	root := rootOf(br, size)
 	var ext []string
 	if shape == "ext" {
 		ext = []string{"Timestamp: 1700000000", "another extension line"}
 	}
-	text := vlib.CheckpointText(feedOrigin, uint64(size), root[:], ext)
+	text := vlib.CheckpointText(feedOrigin, size, root[:], ext)
 	if shape == "lz" {
 		text = strings.Replace(text, "\n", "\n0", 1) // "<origin>\n0<size>\n..."
 	}
@@ -172,8 +196,12 @@ func (s *stubWitness) latestFor(attempt int) []byte {
 		br = s.main.ForkAt(uint64(s.c.ForkAt), 7)
 	}
 	// the witness returns a cosigned checkpoint: log line + a witness line
-	root := br.Root(uint64(w))
-	text := vlib.CheckpointText(feedOrigin, uint64(w), root[:], nil)
+	wsz := uint64(w)
+	if s.c.WBig > 0 {
+		wsz = s.c.WBig
+	}
+	root := rootOf(br, wsz)
+	text := vlib.CheckpointText(feedOrigin, wsz, root[:], nil)
 	wk := vlib.NewKey("witness.example/w", "wit")
 	return vlib.Note(text, s.key.SigLine(text), wk.CosigLine(text, 1700000000))
 }
@@ -259,7 +287,7 @@ func runFeedStub(c *FeedCase) (bool, []string, error) {
 	var published []byte
 	switch c.BadCp {
 	case "":
-		published = shapedCp(key, logBr, c.N, c.Shape)
+		published = shapedCpU(key, logBr, c.nsize(), c.Shape)
 	case "wrongkey":
 		published = cpBytes(vlib.NewKey("logkey", "stranger"), logBr, c.N)
 	case "wrongorigin":
@@ -333,8 +361,8 @@ func runFeedStub(c *FeedCase) (bool, []string, error) {
 			maxAttempt = cl.Attempt
 		}
 	}
-	subSize := uint64(c.N)
-	subRoot := logBr.Root(subSize)
+	subSize := c.nsize()
+	subRoot := rootOf(logBr, subSize)
 	var okUpdate *call
 	for a := 0; a <= maxAttempt; a++ {
 		cs := byAttempt[a]
@@ -678,7 +706,7 @@ func TestC13Sizes(t *testing.T) {
 	if vlib.Thorough() {
 		max = 40
 	}
-	st := vlib.StatsFor("C13", "sizes", fmt.Sprintf("exhaustive: all (witness size in {none,0..%d}, log size in 0..%d) pairs fault-free, witness on the same or the other branch; ", max, max)+ruleC13)
+	st := vlib.StatsFor("C13", "sizes", fmt.Sprintf("exhaustive: all (witness size in {none,0..%d}, log size in 0..%d) pairs fault-free, witness on the same or the other branch, plus all pairs over {5, 2^31, 2^62, 2^63-1, 2^63, 2^63+1, 2^63+5, 2^64-2, 2^64-1}; ", max, max)+ruleC13)
 	for w := -1; w <= max; w++ {
 		for n := 0; n <= max; n++ {
 			for _, stale := range []bool{false, true} {
@@ -692,6 +720,20 @@ func TestC13Sizes(t *testing.T) {
 					vlib.SaveFailure("C13", "sizes", c, err)
 					t.Fatalf("C13 violated: %v (case %+v)", err, *c)
 				}
+			}
+		}
+	}
+	// sizes no real tree reaches: the comparisons "witness ahead / equal / behind" must hold
+	// over the whole uint64 range
+	bigs := []uint64{5, 1 << 31, 1 << 62, 1<<63 - 1, 1 << 63, 1<<63 + 1, 1<<63 + 5, ^uint64(0) - 1, ^uint64(0)}
+	for _, wb := range bigs {
+		for _, nb := range bigs {
+			c := &FeedCase{W: []int{1}, N: 1, WBig: wb, NBig: nb}
+			nt, cl, err := runFeedCase(c)
+			st.Record(feedHash(c), nt, cl, vlib.SampleOf(c))
+			if err != nil {
+				vlib.SaveFailure("C13", "sizes", c, err)
+				t.Fatalf("C13 violated: %v (case %+v)", err, *c)
 			}
 		}
 	}
